@@ -1393,6 +1393,11 @@ fn is_compatible(a_id: usize, b_id: usize, program: &Program) -> bool {
             quiver_core::types::is_compatible(a_id, b_id, program)
         }
         (Type::Union(ids), _) => ids.iter().all(|&id| is_compatible(id, b_id, program)),
+        (_, Type::Union(_))
+            if super::narrowing::contains_cycle(b_id, program, &mut Vec::new()) =>
+        {
+            quiver_core::types::is_compatible(a_id, b_id, program)
+        }
         (_, Type::Union(ids)) => ids.iter().any(|&id| is_compatible(a_id, id, program)),
         // For partial compatibility, use the full is_compatible from types module
         _ => quiver_core::types::is_compatible(a_id, b_id, program),
